@@ -276,7 +276,86 @@ func ruleCanonicalVote(c *Ctx) {
 
 func init() {
 	register("C07", "R1", "K1+K11", "every commit verifier tallies only verified for-block signatures of the slot's validator, with its preconditions, and accepts only on a strict threshold", 26, ruleCommitTally)
+	register("C07", "R5", "K5+K1", "commit construction agrees with commit verification: a vote becomes a for-block signature of the commit only if its full block id (hash and part-set header) equals the commit's", 4, ruleMakeCommit)
 	register("C07", "R4", "K4", "canonical sign bytes bind type, height, round, block id, timestamp and chain id; nil/absent signatures never sign the commit's block id", 14, ruleCanonicalVote)
 	// agreement (C01) rests on the same commit verification: block sync and the light client decide through it
 	register("C01", "R8", "K1+K11", "commit verification used by block sync / light clients: tally and strict threshold (same rule as C07.R1)", 26, ruleCommitTally)
+}
+
+// ruleMakeCommit: VerifyCommit recomputes each for-block signature over the commit's BlockID. So MakeCommit
+// may copy a vote's CommitSig into the commit as it is only when the vote is not for a block, or when the
+// vote's whole BlockID equals the +2/3 BlockID; anything else must become an absent slot. (A precommit with
+// the decided hash but another part-set header would otherwise make the commit unverifiable: every proposal
+// of the next height carries it and is rejected.)
+func ruleMakeCommit(c *Ctx) {
+	w := c.W
+	f := c.fn("types", "VoteSet.MakeCommit")
+	if f == nil {
+		return
+	}
+	fk := funcKey(f)
+	g := guardAny("the vote is not for a block, or its full block id equals the +2/3 block id",
+		guardRe("notblock", `^false\(.*\.CommitSig\(\)\.ForBlock\(\)\)$`),
+		guardRe("equal", `^true\(.*\.BlockID\.Equals\(voteSet\.maj23\)\)$`))
+	n := 0
+	var flows func(v ssa.Value, pred, blk *ssa.BasicBlock, at ssa.Instruction, depth int)
+	flows = func(v ssa.Value, pred, blk *ssa.BasicBlock, at ssa.Instruction, depth int) {
+		if depth > 4 {
+			return
+		}
+		switch x := v.(type) {
+		case *ssa.Call:
+			if w.isCall(x, "types#Vote.CommitSig") {
+				n++
+				var ok bool
+				var path []*ssa.BasicBlock
+				if pred != nil {
+					ok, path = c.ge().guardedEdge(f, pred, blk, g, 2)
+				} else {
+					ok, path = c.ge().guardedLocal(f, at, g, 2)
+				}
+				c.Check(ok, fk+" :: a vote's signature enters the commit <= "+g.Name, w.ipos(at), "guarded", "a vote whose block id differs from the commit's can be copied into the commit as a for-block signature (the commit then fails VerifyCommit): "+pathStr(w, path))
+			}
+		case *ssa.Phi:
+			for i, e := range x.Edges {
+				p := x.Block().Preds[i]
+				flows(e, p, x.Block(), p.Instrs[len(p.Instrs)-1], depth+1)
+			}
+		case *ssa.UnOp:
+			if al, isAlloc := x.X.(*ssa.Alloc); isAlloc {
+				for _, b := range f.Blocks {
+					for _, in := range b.Instrs {
+						if st, isSt := in.(*ssa.Store); isSt && st.Addr == ssa.Value(al) {
+							flows(st.Val, nil, nil, st, depth+1)
+						}
+					}
+				}
+			}
+		}
+	}
+	stores := 0
+	for _, b := range f.Blocks {
+		for _, in := range b.Instrs {
+			st, ok := in.(*ssa.Store)
+			if !ok {
+				continue
+			}
+			ia, ok := st.Addr.(*ssa.IndexAddr)
+			if !ok || !strings.HasSuffix(typeStr(ia.X.Type()), "CommitSig") {
+				continue
+			}
+			stores++
+			flows(st.Val, nil, nil, st, 0)
+		}
+	}
+	c.Check(stores == 1 && n >= 1, fk+" :: fills one signature slot per validator from its vote", w.pos(f.Pos()), fmt.Sprintf("%d slot stores, %d vote signatures", stores, n), fmt.Sprintf("%d slot stores, %d vote signatures flowing in", stores, n))
+	for _, call := range w.callsTo(f, "types#NewCommit") {
+		a := callArgs(call)
+		ok := len(a) == 4 && w.expr(a[0]) == "voteSet.GetHeight()" && w.expr(a[1]) == "voteSet.GetRound()" && w.expr(a[2]) == "voteSet.maj23"
+		c.Check(ok, fk+" :: commit is for the vote set's height, round and +2/3 block id", w.ipos(call), "NewCommit(height, round, maj23, sigs)", w.callStr(call))
+	}
+	// and the +2/3 block id exists
+	for _, call := range w.callsTo(f, "types#NewCommit") {
+		c.guards(f, call, fk+" :: build commit", 0, guardRe("a +2/3 majority exists", `^nonnil\(voteSet\.maj23\)$`))
+	}
 }
